@@ -14,7 +14,7 @@ func init() {
 		Explanation: "Decides writer/reader agreement of every codec pair on the wire path: (R1) every constructor and conversion between balloon proofs and their wire form binds each field to the source field of the corresponding meaning (explicit table; the type checker sees only a row of uint64s), including the hyper value and history (index, version) rebuilt from ActualVersion/QueryVersion; " +
 			"(R2) audit-path key codec: writer and reader agree on separator, order and widths (index parsed at 64 bits); (R3) binary codecs: the command carries exactly one type byte before the msgpack body and the decoder skips exactly one, encoder and decoder share their msgpack handle (commands, gossip messages, raft log entries), encoded bytes never alias a recycled buffer; " +
 			"(R4) wire structs are complete: no unexported or json-skipped fields; (R5) the three Snapshot types are converted by type conversion (identical field sets); (R6) the client pairs a decoded membership answer with the stored snapshots of the answer's own versions: per path to DigestVerify, on every ordering Actual<=Query<=Current of small integers the path is feasible for, the history digest comes from the stored snapshot of QueryVersion and the hyper digest from that of CurrentVersion (finite order model; versions are touched only through comparisons).",
-		Added:       "Also (R3) every command is decoded into a fresh destination. Third round: (R3) hasher factories return a new hasher on every call (no shared state between encoders of concurrent requests).",
+		Added:       "Also (R3) every command is decoded into a fresh destination. Third round: (R3) hasher factories return a new hasher on every call (no shared state between encoders of concurrent requests). Fifth round: decoded proofs are paired with the stored snapshots of their own versions; answers are read to their end; the gossip receive buffer is not retained; no recycled buffer escapes in any codec package.",
 		Assumptions: []string{"encoding/json and go-msgpack round-trip the field types used"},
 		Declined:    "equality of verdicts for all genuine proofs and magnitudes as a value-level statement (e.g. indexes ≥ 2^63 go through a signed parse — outside the property's stated bound).",
 	}, runC13)
